@@ -205,6 +205,13 @@ def build_repodata(shape, r):
         pub = crypto.fast_public(seed).hex()
         d["signatures"] = {n: {pub: {"signature": crypto.fast_sign(seed, twin_canon({"old": "metadata", "of": n})).hex()}} for n in names} \
             or {"gone-1.0-0.tar.bz2": stale}
+    elif pre == "current_own_key":
+        seed = crypto.seed_for(77, shape.get("seed", 0))
+        pub = crypto.fast_public(seed).hex()
+        d["signatures"] = {}
+        for sec in ("packages", "packages.conda"):
+            for n, md in d.get(sec, {}).items():
+                d["signatures"][n] = {pub: {"signature": crypto.fast_sign(seed, twin_canon(md)).hex()}}
     elif pre == "junk":
         d["signatures"] = ["not", "a", "dict"]
     if shape["extra"]:
@@ -232,7 +239,7 @@ def setup_case(case, workdir, seed):
         if inp == "packages_not_object":
             doc["packages"] = ["not", "an", "object"]
         ctx["doc"], ctx["metas"] = doc, metas
-        data = twin_canon(doc) if r.random() < 0.5 else json.dumps(doc).encode()
+        data = twin_canon(doc) if (r.random() < 0.5 and shape["pre"] != "current_own_key") else json.dumps(doc).encode()
         if inp == "not_json":
             data = b'{"packages": {"x": {"truncated": '
         with open(target, "wb") as f:
